@@ -91,6 +91,9 @@ def wl_history(ctx, rng, case, force_width=None):
         if r < 0.6 or not live:
             k = rng.choice(keys)
             n = rng.choice([1, 1, 1, 2, 3, 5]) if rng.random() < 0.93 else rng.randint(1000, 10**6)
+            if rng.random() < 0.04:
+                # large amounts, the total staying below 2^31-1 as the statement requires: every power of two on the way up is crossed somewhere
+                n = rng.choice([2**e + d for e in (15, 16, 24, 27, 28, 30) for d in (-1, 0, 1)] + [10**8, 5 * 10**8, max(1, 2**31 - 2 - total)])
             if total + n >= 2**31 - 1:
                 continue
             if rng.random() < 0.8:
